@@ -1,5 +1,6 @@
 use crate::fw::*;
 pub mod c01;
+pub mod c03;
 pub mod c04;
 pub mod c05;
 pub mod c06;
@@ -11,11 +12,13 @@ pub mod c15;
 pub mod c17;
 pub mod c19;
 pub mod c20;
+pub mod dbg;
 pub mod c18;
 
 pub fn dispatch(ctx: &Ctx, findings: &Findings) -> Option<PropReport> {
     Some(match ctx.prop.as_str() {
         "C01" => c01::run(ctx, findings),
+        "C03" => c03::run_prop(ctx, findings),
         "C04" => c04::run(ctx, findings),
         "C05" => c05::run(ctx, findings),
         "C06" => c06::run(ctx, findings),
@@ -28,6 +31,10 @@ pub fn dispatch(ctx: &Ctx, findings: &Findings) -> Option<PropReport> {
         "C19" => c19::run(ctx, findings),
         "C20" => c20::run_prop(ctx, findings),
         "C18" => c18::run(ctx, findings),
+        "DBG" => {
+            dbg::run();
+            std::process::exit(0)
+        }
         _ => return None,
     })
 }
